@@ -81,10 +81,15 @@ package s2
 //@ spec func vcContentsIt(c *CellIndexContentsIterator) bool = c != nil && vcTreeOK(c.cellTree) && -1 <= int(c.nodeCutoff) && -1 <= int(c.nextNodeCutoff) &&
 //@    -1 <= int(c.node.parent) && int(c.node.parent) < len(c.cellTree)
 
+// Next either climbs to the parent node, or - when the parent was already reported for an earlier range (at or below the
+// cutoff) - finishes this range and raises the cutoff to the first node of this range, so that later ranges do not
+// report the shared ancestors again
 //@ func (c *CellIndexContentsIterator) Next()
 //@   requires vcContentsIt(c)
 //@   modifies c.nodeCutoff, c.node
 //@   ensures vcContentsIt(c)
+//@   ensures [finishes] old(c.node.parent <= c.nodeCutoff) ==> c.Done() && c.nodeCutoff == c.nextNodeCutoff
+//@   ensures [climbs] !old(c.node.parent <= c.nodeCutoff) ==> vcSame(c.node, c.cellTree[old(c.node.parent)]) && c.nodeCutoff == old(c.nodeCutoff)
 
 // Visiting ranges out of order must switch duplicate suppression off: the union that starts at an earlier id than
 // the previous one reports its first node (if it has contents at all).
